@@ -1136,11 +1136,27 @@ func ruleC01SEL(w *World) []Ob {
 			}
 			return normTerm(g)
 		}
-		okMain := len(got["false"]) > 0
-		for _, g := range got["false"] {
-			if norm(g) != normTerm(want) {
-				okMain = false
+		okMain := false
+		for _, c := range all {
+			if v, has := c.conds["(parent(n)==nil)"]; !has || v {
+				continue
 			}
+			if norm(strings.ReplaceAll(c.term, "&", "")) == normTerm(want) {
+				okMain = true
+				continue
+			}
+			// a defensive `false` for a parent that (impossibly) has no children is not a different decision
+			emptyGuard := false
+			for a, pol := range c.conds {
+				if pol && strings.Contains(a, "len(children(parent(n)))") && (strings.HasSuffix(a, "==0)") || strings.HasSuffix(a, "<1)")) {
+					emptyGuard = true
+				}
+			}
+			if c.term == "false" && emptyGuard {
+				continue
+			}
+			okMain = false
+			break
 		}
 		if okMain && len(got["*"]) == 0 && len(got["true"]) == 1 && got["true"][0] == "false" {
 			l.ok(d.FuncID(fn), "last child = identical to the parent's last element", d.Pos(fn.Pos()), "n == n.parent.children[len(n.parent.children)-1]; false without a parent", true, "last")
